@@ -9,6 +9,10 @@ This script copies the selected declarations (whole `mutual` blocks), keeps `var
 renames `namespace XotModel[.X]` to `namespace XotModel.PiColon[.X]` (+ `open XotModel.X`), chains the imports, and
 applies the hand patches PATCHES (the places where the NCName clause / the guard PlainPiTargets was used).
 Lemmas/PiColonDefs.lean and Lemmas/PiColonWitness.lean are written by hand.
+The copy of Props/C01.lean is written twice: Lemmas/PiColonC01.lean (namespace XotModel.PiColon, used by Props/C03)
+and - renamed `C01_x_pi_colon`, namespace XotModel.Props - between the markers `-- BEGIN/END GENERATED picolon` of
+Props/C01.lean itself (with an outdir: into <outdir>/XotModel/Props/C01.picolon-section.lean).
+Drift guard (regenerate into a temporary directory, diff against the committed files): sh extract/picolon/check.sh
 """
 import re, collections, os, sys
 ROOT=os.path.dirname(os.path.dirname(os.path.dirname(os.path.abspath(__file__))))
